@@ -37,7 +37,7 @@ class PettingZooAutoResetParallelWrapper(ParallelEnv):
         dict[AgentID, dict],
     ]:
         obs, rewards, terminations, truncations, infos = self.env.step(actions)
-        if np.all(list(terminations.values()) or list(truncations.values())):
+        if all(terminations[a] or truncations[a] for a in terminations):
             obs, infos = self.env.reset()
         return obs, rewards, terminations, truncations, infos
 
